@@ -30,7 +30,7 @@ def run_stage(a):
     d = pathlib.Path(a['dir'])
     w = pathlib.Path(a['work'])
     w.mkdir(exist_ok=True, parents=True)
-    tmp = pathlib.Path(a.get('tmp') or (w / 'tmp'))
+    tmp = pathlib.Path(a.get('tmp') or a.get('harness_tmp') or (w / 'tmp'))
     tmp.mkdir(exist_ok=True, parents=True)
     st = a['stage']
     tag = a.get('tag', 'out')
